@@ -15,42 +15,6 @@ Section Origin.
   Lemma orig_add_event : forall s q ev s' o, A ev -> _add_event s q ev = (s', o) -> Forall orig o.
   Proof. intros s q ev s' o Ha H. apply add_event_out_ok in H. eapply Forall_impl; [|exact H]. intros x Hx. right. eauto. Qed.
 
-  Lemma orig_remove_exchange : forall s r w s' o, A (PException MessageError) -> _remove_exchange s r w = (s', o) -> Forall orig o.
-  Proof.
-    intros s r w s' o Ha H. unfold _remove_exchange in H.
-    destruct (exchanges s); [|invpairs; constructor].
-    destruct (alookup rm_eqb (r, w_mid w) l); [|invpairs; constructor].
-    destruct (if w_mtype w =? RST then _ else _) as [s2 o2] eqn:E.
-    destruct (_continue_backlog s2 r) as [s3 o3] eqn:C. apply continue_backlog_frame in C. invpairs.
-    apply Forall_app. split; [|apply orig_ml; apply C].
-    destruct (w_mtype w =? RST); [eapply orig_add_event; eauto|invpairs; constructor].
-  Qed.
-  Lemma orig_process_response : forall s r w b s' o, (forall f, A (PResponse w r f)) -> process_response s r w = (b, s', o) -> Forall orig o.
-  Proof.
-    intros s r w b s' o Ha H. unfold process_response in H.
-    destruct (outgoing s); [|invpairs; repeat constructor].
-    destruct (alookup key_eqb _ l); [|invpairs; constructor].
-    destruct (add_response _ z w r _) as [s2 o2] eqn:E. invpairs. eapply orig_add_event; eauto.
-  Qed.
-  Lemma orig_dispatch_message : forall s r mcl w s' o, A (PException MessageError) -> (forall f, A (PResponse w r f)) ->
-    dispatch_message s r mcl w = (s', o) -> Forall orig o.
-  Proof.
-    intros s r mcl w s' o A1 A2 H. unfold dispatch_message in H.
-    destruct (is_request (w_code w)). { invpairs. repeat constructor. }
-    destruct (if (w_mtype w =? ACK) || (w_mtype w =? RST) then _ else _) as [s1 o1] eqn:RE.
-    assert (B1 : Forall orig o1).
-    { destruct ((w_mtype w =? ACK) || (w_mtype w =? RST)); [eapply orig_remove_exchange; eauto|invpairs; constructor]. }
-    assert (SI : forall s r w s' o, _send_initially s r w None = (s', o) -> Forall orig o).
-    { intros * S. apply send_initially_frame in S. destruct S as (_ & _ & _ & ->). repeat constructor. }
-    destruct ((w_code w =? EMPTY) && (w_mtype w =? CON)).
-    { destruct (_send_initially s1 r _ None) as [s2 o2] eqn:S. apply SI in S. invpairs. apply Forall_app; split; assumption. }
-    destruct ((w_code w =? EMPTY) && ((w_mtype w =? ACK) || (w_mtype w =? RST))). { invpairs. exact B1. }
-    destruct (is_response (w_code w) && _); [|invpairs; exact B1].
-    destruct (process_response s1 r w) as [[b s2] o2] eqn:P. apply orig_process_response in P; [|exact A2].
-    destruct b; [destruct (w_mtype w =? CON)|destruct ((w_mtype w =? CON) && negb mcl)];
-      try (destruct (_send_initially s2 r _ None) as [s3 o3] eqn:S; apply SI in S); invpairs;
-      repeat (apply Forall_app; split); assumption.
-  Qed.
   Lemma orig_run_stoppers : forall e, A (PException e) -> forall qs s s' o, run_stoppers s qs e = (s', o) -> Forall orig o.
   Proof.
     intros e Ha. induction qs as [|q rest IH]; intros s s' o H; cbn [run_stoppers] in H; [invpairs; constructor|].
@@ -61,6 +25,62 @@ Section Origin.
   Proof.
     intros s k r s' o Ha H. unfold tm_dispatch_error in H. destruct (outgoing s); [|invpairs; constructor].
     eapply orig_run_stoppers; eauto.
+  Qed.
+  (* a transmission refused by the transport injects PException NetworkError (OSError wrapped) *)
+  Hypothesis Aref : A (PException (wrap_error EOs)).
+  Lemma orig_send_via_transport : forall s r w s' o, _send_via_transport s r w = (s', o) -> Forall orig o.
+  Proof.
+    intros s r w s' o H. unfold _send_via_transport in H. destruct (refuses s r); [|invpairs; repeat constructor].
+    unfold mm_dispatch_error in H. destruct (exchanges s); [|invpairs; constructor].
+    destruct (tm_dispatch_error s EOs r) as [s1 o1] eqn:T. apply orig_tm_dispatch_error in T; [|exact Aref]. invpairs. exact T.
+  Qed.
+  Lemma orig_send_initially : forall s r w m s' o, _send_initially s r w m = (s', o) -> Forall orig o.
+  Proof. intros s r w m s' o H. unfold _send_initially in H. eapply orig_send_via_transport; eauto. Qed.
+  Lemma orig_continue_loop : forall r fuel s s' o x, _continue_backlog_loop fuel s r = (s', o, x) -> Forall orig o.
+  Proof.
+    intros r. induction fuel as [|f IH]; intros s s' o x H; cbn [_continue_backlog_loop] in H; [invpairs; constructor|].
+    destruct (exchanges s); [|invpairs; constructor]. destruct (has_exchange r l); [invpairs; constructor|].
+    destruct (alookup Z.eqb r (backlogs s)) as [[|[w m] rest]|]; try (invpairs; repeat constructor; fail).
+    destruct (_send_initially _ r w (Some m)) as [s1 o1] eqn:S. apply orig_send_initially in S.
+    destruct (_continue_backlog_loop f s1 r) as [[s2 o2] x2] eqn:L. apply IH in L. invpairs. apply Forall_app; split; assumption.
+  Qed.
+  Lemma orig_remove_exchange : forall s r w s' o x, A (PException MessageError) -> _remove_exchange s r w = (s', o, x) -> Forall orig o.
+  Proof.
+    intros s r w s' o x Ha H. unfold _remove_exchange in H.
+    destruct (exchanges s); [|invpairs; constructor].
+    destruct (alookup rm_eqb (r, w_mid w) l); [|invpairs; constructor].
+    destruct (if w_mtype w =? RST then _ else _) as [s2 o2] eqn:E.
+    destruct (_continue_backlog s2 r) as [[s3 o3] x3] eqn:C. invpairs.
+    apply Forall_app. split.
+    - destruct (w_mtype w =? RST); [unfold add_exception in E; eapply orig_add_event; [|exact E]; exact Ha|invpairs; constructor].
+    - unfold _continue_backlog in C. destruct (alookup Z.eqb r (backlogs s2)); [eapply orig_continue_loop; eauto|invpairs; repeat constructor].
+  Qed.
+  Lemma orig_process_response : forall s r w b s' o, (forall f, A (PResponse w r f)) -> process_response s r w = (b, s', o) -> Forall orig o.
+  Proof.
+    intros s r w b s' o Ha H. unfold process_response in H.
+    destruct (outgoing s); [|invpairs; repeat constructor].
+    destruct (alookup key_eqb _ l); [|invpairs; constructor].
+    destruct (add_response _ z w r _) as [s2 o2] eqn:E. invpairs. unfold add_response in E. eapply orig_add_event; [|exact E]. apply Ha.
+  Qed.
+  Lemma orig_dispatch_message : forall s r mcl w s' o, A (PException MessageError) -> (forall f, A (PResponse w r f)) ->
+    dispatch_message s r mcl w = (s', o) -> Forall orig o.
+  Proof.
+    intros s r mcl w s' o A1 A2 H. unfold dispatch_message in H.
+    destruct (is_request (w_code w)). { invpairs. repeat constructor. }
+    destruct (if (w_mtype w =? ACK) || (w_mtype w =? RST) then _ else _) as [[s1 o1] x1] eqn:RE.
+    assert (B1 : Forall orig o1).
+    { destruct ((w_mtype w =? ACK) || (w_mtype w =? RST)); [eapply orig_remove_exchange; eauto|invpairs; constructor]. }
+    destruct x1. { invpairs. exact B1. }
+    assert (SI : forall s r w s' o, _send_initially s r w None = (s', o) -> Forall orig o).
+    { intros *. apply orig_send_initially. }
+    destruct ((w_code w =? EMPTY) && (w_mtype w =? CON)).
+    { destruct (_send_initially s1 r _ None) as [s2 o2] eqn:S. apply SI in S. invpairs. apply Forall_app; split; assumption. }
+    destruct ((w_code w =? EMPTY) && ((w_mtype w =? ACK) || (w_mtype w =? RST))). { invpairs. exact B1. }
+    destruct (is_response (w_code w) && _); [|invpairs; exact B1].
+    destruct (process_response s1 r w) as [[b s2] o2] eqn:P. apply orig_process_response in P; [|exact A2].
+    destruct b; [destruct (w_mtype w =? CON)|destruct ((w_mtype w =? CON) && negb mcl)];
+      try (destruct (_send_initially s2 r _ None) as [s3 o3] eqn:S; apply SI in S); invpairs;
+      repeat (apply Forall_app; split); assumption.
   Qed.
   Lemma orig_shutdown_loop : A (PException LibraryShutdown) -> forall fuel s s' o, tm_shutdown_loop fuel s = (s', o) -> Forall orig o.
   Proof.
@@ -82,8 +102,8 @@ Section Origin.
       set (s1 := set_next_mid _ _) in SM. clearbody s1. set (w := {| w_mtype := mt' |}) in SM. clearbody w.
       destruct ((mt' =? CON) && amem Z.eqb r _).
       + set (s2 := set_backlogs s1 _) in SM. clearbody s2. injection SM as <- <-. constructor.
-      + destruct (_send_initially s1 r w (Some q)) as [s2 o1] eqn:S. apply send_initially_frame in S. destruct S as (_ & _ & _ & ->).
-        injection SM as <- <-. repeat constructor.
+      + destruct (_send_initially s1 r w (Some q)) as [s2 o1] eqn:S. apply orig_send_initially in S.
+        injection SM as <- <-. exact S.
     - assert (e = ConToMulticast).
       { unfold send_message in SM. set (mt' := match mt with None => _ | Some _ => _ end) in SM. clearbody mt'.
         destruct ((mt' =? CON) && is_multicast r); [congruence|]. cbn [_next_message_id] in SM.
@@ -96,37 +116,41 @@ Section Origin.
   Proof.
     intros s r mid s' o Ha H. unfold _retransmit in H. destruct (exchanges s); [|invpairs; constructor].
     destruct (alookup rm_eqb (r, mid) l); [|invpairs; repeat constructor].
-    destruct (ex_counter e <? 4); [invpairs; repeat constructor|].
-    eapply orig_tm_dispatch_error in H; [exact H|exact Ha].
+    destruct (ex_counter e <? 4).
+    - destruct (_send_via_transport _ r (ex_msg e)) as [s2 o2] eqn:S. apply orig_send_via_transport in S.
+      destruct (exchanges s2); invpairs; [exact S|]. apply Forall_app. split; [exact S|repeat constructor].
+    - destruct (amem Z.eqb r _); [|invpairs; repeat constructor].
+      eapply orig_tm_dispatch_error in H; [exact H|exact Ha].
   Qed.
 End Origin.
 
 (* the Pipe events a step can inject *)
 Definition pev_allowed (e : event) (ev : pev) : Prop :=
   match e with
-  | Request _ _ _ _ => ev = PException LibraryShutdown \/ ev = PException ConToMulticast
-  | Recv r _ w => ev = PException MessageError \/ exists f, ev = PResponse w r f
-  | Fire => ev = PException ConRetransmitsExceeded
+  | Request _ _ _ _ => ev = PException LibraryShutdown \/ ev = PException ConToMulticast \/ ev = PException NetworkError
+  | Recv r _ w => ev = PException MessageError \/ ev = PException NetworkError \/ exists f, ev = PResponse w r f
+  | Fire => ev = PException ConRetransmitsExceeded \/ ev = PException NetworkError
   | Err _ k => ev = PException (wrap_error k)
   | Shutdown => ev = PException LibraryShutdown
-  | Adv _ | Cancel _ | ObsCancel _ => False
+  | Adv _ | Cancel _ | ObsCancel _ | Refuse _ _ => False
   end.
 
 Lemma step_origin : forall s e s' o, step s e = (s', o) -> Forall (orig (pev_allowed e)) o.
 Proof.
   intros s e s' o H. destruct e; cbn [step] in H.
   - unfold new_request in H. destruct (get_req s q); [invpairs; constructor|].
-    eapply orig_request; [| |exact H]; cbn; auto.
+    eapply (orig_request (pev_allowed (Request q r mtype obs))); [| | |exact H]; cbn; auto.
   - destruct (outgoing s); [|invpairs; constructor].
-    eapply orig_dispatch_message; [| |exact H]; cbn; eauto.
+    eapply (orig_dispatch_message (pev_allowed (Recv r mcl w))); [| | |exact H]; cbn; eauto.
   - destruct (exchanges s); [|invpairs; constructor].
     destruct (next_timer l None) as [[[r mid] e]|]; [|invpairs; constructor].
-    eapply (orig_retransmit (pev_allowed Fire)); [|exact H]. exact eq_refl.
+    eapply (orig_retransmit (pev_allowed Fire)); [| |exact H]; cbn; auto.
   - repeat dmatch; invpairs; constructor.
   - unfold mm_dispatch_error in H. destruct (exchanges s); [|invpairs; constructor].
     destruct (tm_dispatch_error s k r) as [s1 o1] eqn:T.
     eapply (orig_tm_dispatch_error (pev_allowed (Err r k))) in T; [|exact eq_refl]. invpairs. exact T.
   - unfold cancel in H. repeat dmatch; invpairs; repeat constructor.
+  - invpairs. constructor.
   - invpairs. constructor.
   - unfold shutdown in H. destruct (outgoing s); [|invpairs; constructor].
     destruct (tm_shutdown_loop (length l) s) as [s1 o1] eqn:L. eapply (orig_shutdown_loop (pev_allowed Shutdown)) in L; [|exact eq_refl].
@@ -150,15 +174,13 @@ Proof.
   intros s e s' o x H Hwf Hin. apply step_origin in H. rewrite Forall_forall in H. specialize (H x Hin).
   destruct H as [H|(q & ev & Ha & Hok)]; destruct x; cbn in *; try contradiction; try exact I.
   - destruct Hok as [_ (w & l & -> & -> & ->)]. destruct e; cbn in Ha; try contradiction;
-      try (destruct Ha as [Ha|Ha]; discriminate); try discriminate.
-    destruct Ha as [Ha|[f Ha]]; [discriminate|]. inversion Ha. subst. eauto.
-  - destruct Hok as [_ ->]. destruct e; cbn in Ha; try contradiction.
-    + destruct Ha as [Ha|Ha]; inversion Ha; reflexivity.
-    + destruct Ha as [Ha|[f Ha]]; inversion Ha; reflexivity.
-    + inversion Ha. reflexivity.
+      repeat (destruct Ha as [Ha|Ha]; try discriminate); try discriminate.
+    destruct Ha as [f Ha]. inversion Ha. subst. eauto.
+  - destruct Hok as [_ ->]. destruct e; cbn in Ha; try contradiction;
+      repeat (destruct Ha as [Ha|Ha]; try (inversion Ha; reflexivity)); try (inversion Ha; reflexivity).
+    + destruct Ha as [f Ha]. discriminate.
     + inversion Ha. destruct k; cbn in *; [reflexivity|exact Hwf].
-    + inversion Ha. reflexivity.
   - destruct Hok as [_ (w & l & -> & -> & ->)]. destruct e; cbn in Ha; try contradiction;
-      try (destruct Ha as [Ha|Ha]; discriminate); try discriminate.
-    destruct Ha as [Ha|[f Ha]]; [discriminate|]. inversion Ha. subst. eauto.
+      repeat (destruct Ha as [Ha|Ha]; try discriminate); try discriminate.
+    destruct Ha as [f Ha]. inversion Ha. subst. eauto.
 Qed.
